@@ -122,7 +122,8 @@ def evaluate__plus_operator(self: XPathToken, context: ta.ContextType = None) \
 
         try:
             return checked_integer(op1 + op2)  # type:ignore[operator, no-any-return]
-        except (TypeError, OverflowError) as err:
+        except (TypeError, OverflowError, ValueError) as err:
+            # a ValueError comes from date/time values out of the range of datetime
             if isinstance(context, XPathSchemaContext):
                 return []
             elif isinstance(err, TypeError):
@@ -150,7 +151,8 @@ def evaluate__minus_operator(self: XPathToken, context: ta.ContextType = None) \
 
         try:
             return checked_integer(op1 - op2)  # type:ignore[operator, no-any-return]
-        except (TypeError, OverflowError) as err:
+        except (TypeError, OverflowError, ValueError) as err:
+            # a ValueError comes from date/time values out of the range of datetime
             if isinstance(context, XPathSchemaContext):
                 return []
             elif isinstance(err, TypeError):
